@@ -11,7 +11,9 @@ use crate::refm::{self, RefResult, SearchOpts};
 use fancy_regex::verif_hooks::{last_run_stats, reset_run_stats};
 use fancy_regex::Regex;
 
-pub struct Limits;
+pub struct Limits {
+    pub only_pos0: bool,
+}
 
 const FIXED: [usize; 8] = [0, 1, 2, 3, 5, 10, 100, 1_000_000];
 const MAX_STACK: u64 = 1_000_000;
@@ -42,6 +44,9 @@ fn rep_product(n: &Node) -> u64 {
 
 impl PatProp for Limits {
     type P = LP;
+    fn all_offsets(&self) -> bool {
+        !self.only_pos0
+    }
     fn prepare(&self, ctx: &RunCtx, n: &Node, pat: &str, st: &mut Stats) -> Prep<LP> {
         let re = match engine::build(pat) {
             Built::Ok(r) => r,
@@ -136,7 +141,7 @@ impl PatProp for Limits {
 }
 
 pub fn run(ctx: &RunCtx) -> Outcome {
-    let p = Limits;
+    let p = Limits { only_pos0: false };
     let mut o = Outcome::default();
     o.rule = "VM-compiled patterns of the unrestricted space (exhaustive trees, context x filler products with conditionals, proptest random ASTs) x texts x offsets. Per case the unlimited search is run once and its statistics read through the hook (backtracks B, pushes, peak branch stack, instructions): (ii) for every limit L in {0,1,2,3,5,10,100,10^6} (and B-1, B, B+1 for larger B) the search under backtrack_limit(L) returns exactly Err(BacktrackLimitExceeded) if L < B and exactly the unlimited answer otherwise; (iii) with default limits a runtime error is only accepted if the reference exploration of the same case is not tiny (> 10^4 steps); (iv) peak stack <= 10^6 and instructions <= (pushes + B + 1) x |program| x counted-repeat factor x (len+2). Non-trivial = B >= 1 and limits on both sides of the threshold were exercised. Distinct = distinct (pattern, text, offset).".into();
     o.assumptions = vec!["hook statistics are those of the single vm::run behind find_from_pos".into(), "wall clock is only a watchdog".into()];
@@ -161,6 +166,15 @@ pub fn run(ctx: &RunCtx) -> Outcome {
     };
     if !stage(ctx, &mut o, &p, "context x filler (with conditionals)", &prods, &ptexts) {
         return o;
+    }
+    // long texts: catastrophic patterns legitimately hit the limits here, cheap ones must not
+    {
+        let lp = Limits { only_pos0: true };
+        let long: Vec<String> = vec!["a".repeat(24), "a".repeat(30) + "b", "ab".repeat(14), "a".repeat(200)];
+        let loops: Vec<Node> = prods.iter().filter(|n| n.any(|x| matches!(x, Repeat(_, _, None, _)))).cloned().collect();
+        if !stage(ctx, &mut o, &lp, "products with unbounded loops x long texts (offset 0)", &loops, &long) {
+            return o;
+        }
     }
     let cases = if quick { 60_000 } else { 1_000_000 };
     stage_random(ctx, &mut o, &p, "random unrestricted", &RandCfg::wild(), &ptexts, cases, &|_| true);
